@@ -387,4 +387,15 @@ def emailUserOK (c : Cfg) (t : Int) (strGuest uuser query : Bytes) (raw : Raw) (
     | .error _ => none
     | .ok (id, eml) => if query ≠ id.user then none else some eml
 
+/-- `GetEmailTokenInfo` behind `LoginRequiredJSON` (a route that allows sysops): the context comes from the
+request; the gate `userInfoIsValidEmailUser` is asked about the token's own subject. -/
+def getEmailTokenInfo (c : Cfg) (t : Int) (strGuest uuser : Bytes) (body : Raw) (context : Bytes) (isSysop : Bool) :
+    Except Err (Ident × Bytes) :=
+  match verifyEmailJwt c t body context with
+  | .error e => .error e
+  | .ok (id, eml) =>
+    match emailUserOK c t strGuest uuser id.user body context true isSysop with
+    | none => .error .invalidToken
+    | some _ => .ok (id, eml)
+
 end PttVerif.C16
